@@ -22,6 +22,7 @@ type webTransport struct {
 	session *types.WebTransportConn
 	mu      sync.Mutex
 	start   sync.Once
+	sends   sendTracker
 }
 
 // WebTransport transport
@@ -135,6 +136,7 @@ func (w *webTransport) onMessage(data types.BufferInterface) {
 // Writes a packet payload.
 func (w *webTransport) Send(packets []*packet.Packet) {
 	w.SetWritable(false)
+	w.sends.begin()
 	go w.send(packets)
 }
 func (w *webTransport) send(packets []*packet.Packet) {
@@ -146,6 +148,9 @@ func (w *webTransport) send(packets []*packet.Packet) {
 
 	w.mu.Lock()
 	defer w.mu.Unlock()
+	// the batch is on the wire (or has failed) once the loop is left: an
+	// orderly close waits for this
+	defer w.sends.end()
 
 	for _, packet := range packets {
 		// always creates a new object since ws modifies it
@@ -241,7 +246,17 @@ func (w *webTransport) write(data types.BufferInterface, _ bool) {
 // Closes the transport.
 func (w *webTransport) DoClose(fn types.Callable) {
 	wt_log.Debug(`closing WebTransport session`)
-	defer w.session.CloseWithError(0, "")
+	if fn == nil || w.Discarded() {
+		// the transport is torn down (the session has failed: ping timeout,
+		// transport or parse error; a candidate that is not taken) or thrown
+		// away: nothing waits for a peer that may not be reading
+		defer w.session.CloseWithError(0, "")
+	} else {
+		// a close that was asked for (Socket.Close(false), which passes the
+		// callback that completes it) lets what Send has already handed to
+		// the writer reach the wire first
+		defer closeAfter(w.sends.done(), func() { w.session.CloseWithError(0, "") })
+	}
 	if fn != nil {
 		fn()
 	}
